@@ -197,7 +197,9 @@ pub fn checked_ready(rn: &mut RawNode<VStore>) -> (Ready, Obs) {
         let m = &per[k];
         let t = m.get_msg_type();
         if t == MessageType::MsgRequestVoteResponse && !m.reject {
-            assert!(hs_now.term == m.term && hs_now.vote == m.to, "vote granted but not recorded in the hard state being persisted");
+            // (a grant of an earlier term is covered by a hard state whose term is already higher:
+            // the node can never vote in that term again)
+            assert!(hs_now.term > m.term || (hs_now.term == m.term && hs_now.vote == m.to), "vote granted but not recorded in the hard state being persisted");
         }
         if t == MessageType::MsgRequestVote {
             assert!(hs_now.term == m.term && hs_now.vote == ME);
@@ -312,6 +314,7 @@ pub const K_TICK: u8 = 4;
 pub const K_HUP: u8 = 5;
 pub const K_PROPOSE: u8 = 6;
 pub const K_SNAPSHOT: u8 = 7;
+pub const K_APPRESP: u8 = 8;
 
 impl Input {
     pub const NONE: Input = Input { kind: K_NONE, term: 0, idx_off: 0, log_term: 0, ents: &[], commit: 0, dlen: 0, index: 0, sterm: 0 };
@@ -330,6 +333,10 @@ impl Input {
     }
     pub const fn propose(dlen: usize) -> Input {
         Input { kind: K_PROPOSE, dlen, ..Input::NONE }
+    }
+    /// MsgAppendResponse (ack) from 2 at `term` for `index`
+    pub const fn appresp(term: u64, index: u64) -> Input {
+        Input { kind: K_APPRESP, term, index, ..Input::NONE }
     }
     /// MsgSnapshot from 2 at `term` with metadata (index, sterm) and the shape's configuration
     pub const fn snapshot(term: u64, index: u64, sterm: u64) -> Input {
@@ -373,6 +380,11 @@ pub fn apply_input(rn: &mut RawNode<VStore>, sh: &Shape, inp: &Input) {
         assert!(r.is_ok());
     } else if inp.kind == K_PROPOSE {
         let r = rn.propose(vec![], vec![7u8; dlen]);
+        assert!(r.is_ok());
+    } else if inp.kind == K_APPRESP {
+        let mut m = msg(MessageType::MsgAppendResponse, 2, term);
+        m.index = sh.base + index;
+        let r = rn.step(m);
         assert!(r.is_ok());
     } else if inp.kind == K_SNAPSHOT {
         let mut m = msg(MessageType::MsgSnapshot, 2, term);
